@@ -189,12 +189,12 @@ class Ctx:
             with open(replay, "w") as fh:
                 json.dump({"property": self.prop, "tier": self.tier, "seed": self.seed,
                            "failures": unknown[:200]}, fh, indent=1, default=str)
-            for f in unknown[:10]:
-                log("  monitor %s failed: %s" % (f["monitor"], json.dumps(f["detail"], default=str)[:600]))
+            for f in unknown[:5]:
+                log("  monitor %s failed: %s" % (f["monitor"], json.dumps(f["detail"], default=str)[:400]))
             log("VIOLATION property=%s replay=%s" % (self.prop, replay))
             rc = 1
-        for d in self.divergences[:10]:
-            log("DIVERGENCE (model vs code, not a verdict): %s" % json.dumps(d, default=str)[:400])
+        for d in self.divergences[:3]:
+            log("DIVERGENCE (model vs code, not a verdict): %s" % json.dumps(d, default=str)[:300])
         cov = dict(self.cov)
         if samples is not None:
             cov["samples"] = samples
